@@ -120,6 +120,8 @@ class Builder(Client):
         c = w.pool["c"][cid]
         nu = n_user(c)
         kinds = ["ps", "ps", "loss", "barrier"]
+        if self.cfg.get("no_loss"):
+            kinds = ["ps", "ps", "barrier"]
         if nu >= 2:
             kinds += ["bs", "bs", "bs", "mode_swaps", "mode_swaps"]
         if c.input_modes >= 2 and len(c.heralds["input"]) < self.cfg["max_heralds"]:
@@ -134,7 +136,7 @@ class Builder(Client):
                 pass  # default second mode
             else:
                 o["m2"] = m2
-            if r.random() < 0.35:
+            if r.random() < 0.35 and not self.cfg.get("no_loss"):
                 o["loss"] = self.value("loss")
             if r.random() < 0.4:
                 o["conv"] = r.choice(["Rx", "H"])
@@ -142,7 +144,7 @@ class Builder(Client):
         if k == "ps":
             o = {"op": "ps", "c": cid, "m": r.randrange(nu),
                  "phi": self.value("phi")}
-            if r.random() < 0.3:
+            if r.random() < 0.3 and not self.cfg.get("no_loss"):
                 o["loss"] = self.value("loss")
             return o
         if k == "loss":
